@@ -539,6 +539,32 @@ func (i *interpreter) eqTermG(guard *Term, t types.Type, x, y value) *Term {
 
 // ---------------------------------------------------------------- conversions
 
+// encodeRune: the UTF-8 encoding of a symbolic code point r (64-bit term,
+// already sign-/zero-extended).  Out-of-range values and surrogates encode
+// as U+FFFD, as in Go.
+func (i *interpreter) encodeRune(r *Term) value {
+	tf := i.ps.tf
+	c := func(v uint64) *Term { return tf.bv(v, 64) }
+	lt := func(v uint64) bool { return i.ps.decide(tf.cmp(opULt, r, c(v))) }
+	b := func(t *Term) *Term { return tf.resize(t, 8, false) }
+	shr := func(n uint64) *Term { return tf.bin(opLShr, r, c(n)) }
+	cont := func(t *Term) *Term { return b(tf.bin(opOr, c(0x80), tf.bin(opAnd, t, c(0x3F)))) }
+	switch {
+	case lt(0x80):
+		return mkStr([]*Term{b(r)})
+	case lt(0x800):
+		return mkStr([]*Term{b(tf.bin(opOr, c(0xC0), shr(6))), cont(r)})
+	case lt(0x10000):
+		if !lt(0xD800) && lt(0xE000) {
+			return "\uFFFD"
+		}
+		return mkStr([]*Term{b(tf.bin(opOr, c(0xE0), shr(12))), cont(shr(6)), cont(r)})
+	case lt(0x110000):
+		return mkStr([]*Term{b(tf.bin(opOr, c(0xF0), shr(18))), cont(shr(12)), cont(shr(6)), cont(r)})
+	}
+	return "\uFFFD"
+}
+
 func (i *interpreter) symConv(t_dst, t_src types.Type, x value) value {
 	tf := i.ps.tf
 	ut_dst := t_dst.Underlying()
@@ -550,11 +576,8 @@ func (i *interpreter) symConv(t_dst, t_src types.Type, x value) value {
 				return mkInt(tf.resize(v.t, kindWidth(d.Kind()), kindSigned(v.k)), normKind(d.Kind()))
 			}
 			if d.Kind() == types.String {
-				// string(rune): single byte when < 0x80
-				if !i.ps.decide(tf.cmp(opULt, tf.resize(v.t, 64, kindSigned(v.k)), tf.bv(0x80, 64))) {
-					panic(pathAbort{"unsupported", "string(symbolic rune >= 0x80)"})
-				}
-				return mkStr([]*Term{tf.resize(v.t, 8, false)})
+				// string(rune): UTF-8 encoding, the length class is a decision
+				return i.encodeRune(tf.resize(v.t, 64, kindSigned(v.k)))
 			}
 		}
 		panic(pathAbort{"unsupported", fmt.Sprintf("conversion of symbolic int to %s", t_dst)})
